@@ -386,6 +386,29 @@ func ExploreScenario(seed int64, p Profile, x *Explorer) {
 			}
 			x.between()
 		}
+	case "limit":
+		// the per-resource limit of direct subscriptions (256): fill it with subscribe / get / resource responses, go past it,
+		// then unsubscribe with counts around the limit
+		const X = 0
+		x.Truth[name(X)] = &gw.Content{IsModel: true, M: absval.KV{0: {K: 'p', N: x.fresh()}}}
+		total := 256 - x.R.Intn(3)
+		for i := 0; i < total; i++ {
+			x.sendFrame(A, "subscribe", X, "")
+			if i%32 == 31 {
+				x.settle()
+			}
+		}
+		x.settle()
+		for k := 1 + x.R.Intn(4); k > 0; k-- {
+			x.sendFrame(A, x.R.Pick("subscribe", "subscribe", "get"), X, "")
+			x.between()
+		}
+		x.settle()
+		for _, cnt := range []int{257, 256 + x.R.Intn(3), 255, x.R.Intn(4), 1 + x.R.Intn(3)} {
+			x.nextID[A.Label]++
+			x.Run.Do(gw.Action{A: "frame", C: A.Label, Text: fmt.Sprintf(`{"id":%d,"method":"unsubscribe.%s","params":{"count":%d}}`, x.nextID[A.Label], name(X), cnt)})
+			x.settle()
+		}
 	case "thr":
 		// every client holds a few resources; then a system reset whose governed requests (re-fetches, re-access checks)
 		// exceed the throttle, disturbed while they wait: a client leaves, unsubscribes, a second reset arrives
